@@ -10,6 +10,7 @@ import (
 	"go/token"
 	"go/types"
 	"math/big"
+	"regexp"
 	"sort"
 	"strings"
 
@@ -828,4 +829,25 @@ func decodePartsLeaf(d *DPath) string {
 		return "single opcode byte"
 	}
 	return "len=" + lenSrc + " data@" + dataOff
+}
+
+// W-enc (C13): EncodeParts writes, for every part in order, the push prefix of that part followed by the part
+// itself, whole: its layout is Loop[parts](PushDataPrefix(part) · part). The prefix's own layout is what
+// T-push decides; here it is taken from PushDataPrefix as it stands and must reappear unchanged.
+func ruleWEnc(c *Ctx) {
+	enc := c.P.Func("bscript", "", "EncodeParts")
+	pre := c.P.Func("bscript", "", "PushDataPrefix")
+	if enc == nil || pre == nil {
+		c.Undecided("W-enc", "EncodeParts", token.NoPos, "EncodeParts / PushDataPrefix not found")
+		return
+	}
+	got := newWEval(c.P, enc).evalFunc().String()
+	pl := newWEval(c.P, pre).evalFunc().String()
+	want := "Loop[p0](" + regexp.MustCompile(`\bp0\b`).ReplaceAllString(pl, "p0[i]") + " · Raw(p0[i]))"
+	if strings.Contains(got, "Unknown(") {
+		c.Undecided("W-enc", "EncodeParts", enc.Pos(), "the encoder uses an idiom outside the layout vocabulary: "+shorten(got, 300))
+		return
+	}
+	c.Check(got == want, "W-enc", "EncodeParts", enc.Pos(), "EncodeParts writes prefix(part) · part for every part in order: "+shorten(got, 120),
+		"EncodeParts does not write, for every part, its push prefix followed by the whole part: layout "+shorten(got, 400)+" — expected "+shorten(want, 200))
 }
